@@ -50,6 +50,42 @@ class E:
         return show(self)
 
 
+def _first_eager_cond(e):
+    """first conditional expression of e in evaluation order that is always
+    evaluated (not inside the right operand of && / ||, nor inside an arm of
+    another conditional)"""
+    if e is None or not isinstance(e, E):
+        return None
+    if e.k == 'cond':
+        inner = _first_eager_cond(e.a[0])
+        return inner if inner is not None else e
+    if e.k == 'bin' and e.a[0] in ('&&', '||'):
+        return _first_eager_cond(e.a[1])
+    for x in e.a:
+        xs = x if isinstance(x, list) else [x]
+        for y in xs:
+            if isinstance(y, E):
+                r = _first_eager_cond(y)
+                if r is not None:
+                    return r
+    return None
+
+
+def _replace_in(e, target, new):
+    """deep copy of e with the node `target` replaced by (a copy of) `new`"""
+    if e is target:
+        return _replace_in(new, None, None)
+    if not isinstance(e, E):
+        return e
+    args = []
+    for x in e.a:
+        if isinstance(x, list):
+            args.append([_replace_in(y, target, new) for y in x])
+        else:
+            args.append(_replace_in(x, target, new))
+    return E(e.k, *args, line=e.line)
+
+
 def show(e):
     if e is None:
         return ''
@@ -606,6 +642,14 @@ class CCFG:
         elif k == 'return' and s.a[0] is not None and s.a[0].k == 'cond':
             c = s.a[0]
             low = (c.a[0], E('return', c.a[1], line=s.line), E('return', c.a[2], line=s.line))
+        if low is None and k in ('expr', 'return', 'decl'):
+            # a conditional expression anywhere else in a simple statement (a call
+            # argument, an initialiser): the statement with the test first and then
+            # exactly one arm - unless it sits in a lazily evaluated operand
+            root = s.a[0] if k != 'decl' else s.a[2]
+            c = _first_eager_cond(root)
+            if c is not None:
+                low = (c.a[0], _replace_in(s, c, c.a[1]), _replace_in(s, c, c.a[2]))
         if low is not None:
             t, f = self._cond(low[0], fr)
             return self._stmt(low[1], t) + self._stmt(low[2], f)
